@@ -60,7 +60,7 @@ F32B = (0.1, 0.9, 5.3)
 
 def tasks(tier):
     n = NMAX[tier]
-    ts = [("f32",), ("layout",), ("valid_int",)]
+    ts = [("f32",), ("layout",), ("valid_int",), ("int_ma",), ("valid_as",)]
     for f in itertools.product(B, repeat=2):
         ts.append(("gross", list(f), n))
     for lo in (None,) + B:
@@ -117,6 +117,35 @@ def check_case(case):
         if got.shape != base.shape or not np.array_equal(got, exp):
             vs.append(dict(signature=f"{PROP}|{case['which']}|2d-{case['order']}|symptom=flags-misplaced", what=f"{case['which']} range test on a 2-D {case['order']}-ordered array puts flags on the wrong elements", expected=exp.tolist(), observed=got.tolist()))
         return vs, True, tuple(got.reshape(-1).tolist()), 0
+    if fn == "gross_int_ma":
+        # integer-typed masked array (a packed variable with a fill value): missing = masked, any integer underneath
+        x = case["x"]
+        miss = [v is None for v in x]
+        inp = np.ma.MaskedArray(np.array([-999 if m else int(v) for v, m in zip(x, miss)], dtype=case["dtype"]), mask=miss if case["mask"] == "array" or any(miss) else False)
+        kw = {}
+        if case["suspect"] is not None:
+            kw["suspect_span"] = list(case["suspect"])
+        out = alpha.call(qartod.gross_range_test, inp, list(case["fail"]), **kw)
+        acceptable = R.gross_range([None if m else float(v) for v, m in zip(x, miss)], case["fail"], case["suspect"])
+        vs, obs = judge_flags(PROP, "gross_range_test", out, acceptable, len(x), extra_sig=f"integer-masked-array|mask={case['mask']}", classify=lambda i: "value")
+        return vs, True, obs, 0
+    if fn == "valid_as":
+        # the caller names the dtype the comparison is to be made in (documented `dtype` argument): integer data compared
+        # as float64 against fractional bounds, second-resolution instants compared as milliseconds
+        x = case["x"]
+        si, ei = case["incl"] if case["incl"] is not None else (True, False)
+        kw = {} if case["incl"] is None else dict(start_inclusive=si, end_inclusive=ei)
+        if case["kind"] == "int":
+            out = alpha.call(axds.valid_range_test, np.array(x, dtype="int64"), (case["lo"], case["hi"]), dtype=np.dtype("float64"), **kw)
+            acceptable = R.valid_range([float(v) for v in x], case["lo"], case["hi"], si, ei)
+        else:
+            base = np.datetime64(alpha.T0, "s")
+            mk = lambda v: None if v is None else (base.astype("datetime64[ms]") + np.timedelta64(int(round(v * 1000)), "ms"))
+            inp = np.array([base + np.timedelta64(int(v), "s") for v in x], dtype="datetime64[s]")
+            out = alpha.call(axds.valid_range_test, inp, (mk(case["lo"]), mk(case["hi"])), dtype=np.dtype("datetime64[ms]"), **kw)
+            acceptable = R.valid_range([float(v) for v in x], case["lo"], case["hi"], si, ei)
+        vs, obs = judge_flags(PROP, "valid_range_test", out, acceptable, len(x), extra_sig=f"explicit-dtype|{case['kind']}", classify=lambda i: "value")
+        return vs, True, obs, 0
     if fn == "valid_int":
         # integer data (no missing values possible) with open / closed spans
         x = case["x"]
@@ -200,6 +229,26 @@ def run_task(task, acc):
                         for x in (series_space(n) if sc == "list" else PRODUCT[:1]):
                             yield dict(fn="valid", x=x, lo=lo, hi=hi, incl=None if incl is None else list(incl), span_carrier=sc)
 
+        run_cases(acc, gen(), check_case)
+    elif kind == "int_ma":
+        def gen():
+            for dt_ in ("int64", "int16"):
+                for x in alpha.all_seqs((-1, 0, 2, 3, 4, None), 1, 3):
+                    for fail in ([0, 3], [3, 0], [2, 2]):
+                        for suspect in (None, [1, 2]):
+                            if suspect is not None and fail == [2, 2]:
+                                continue
+                            for mask in ("array", "auto"):
+                                yield dict(fn="gross_int_ma", x=list(x), dtype=dt_, fail=fail, suspect=suspect, mask=mask)
+        run_cases(acc, gen(), check_case)
+    elif kind == "valid_as":
+        def gen():
+            for incl in INCL:
+                for lo in (None, 0.5, 1.0, 1.5):
+                    for hi in (None, 2.5, 3.0, 0.5):
+                        for x in ([0, 1, 2, 3, 4], [3, 1], [2]):
+                            yield dict(fn="valid_as", kind="int", x=x, lo=lo, hi=hi, incl=None if incl is None else list(incl))
+                            yield dict(fn="valid_as", kind="dt", x=x, lo=lo, hi=hi, incl=None if incl is None else list(incl))
         run_cases(acc, gen(), check_case)
     elif kind == "valid_int":
         def gen():
